@@ -149,8 +149,10 @@ fn judge(s: &Spec, verdict: Option<bool>, obs: &Obs) -> Vec<(String, String)> {
     let authenticated_shape = flag == Some(true) && auth_calls >= 1 && success == Some((V_NAME.to_string(), V_UUID));
     match verdict {
         Some(true) => {
-            if !accepted_shape {
-                bad(format!("valid-cookie-not-honoured:{class}"), format!("flag {flag:?}, authentication calls {auth_calls}, Login Success {success:?}, result {:?}", obs.result));
+            // C02 says when authentication may be skipped, not that it must be (that promise is C10's): a valid
+            // cookie is either honoured completely (flag off, no service call, the cookie's identity) or not at all
+            if !accepted_shape && !authenticated_shape {
+                bad(format!("valid-cookie-mishandled:{class}"), format!("flag {flag:?}, authentication calls {auth_calls}, Login Success {success:?}, result {:?}", obs.result));
             }
         }
         Some(false) => {
